@@ -30,11 +30,15 @@ def scenarios(tier):
   out.append(('mux 2 endpoints, member leaves, 2 calls',
               {'stack': 'mux', 'endpoints': 2, 'ops': [('call', 'u0', 0.1025), ('call', 'u1')], 'faults': ['drop', 'reset'],
                'scripted_serverset': True, 'membership': [('leave', 0)], 'timeout': 0.5025}))
+  # tags beyond 16 bits (tag counter jumps as if the tags in between were held by requests that were never answered)
+  out.append(('mux on the wire with a tag above 65535: replies late or lost',
+              {'stack': 'mux', 'endpoints': 1, 'ops': [('call', 't0', 0.2025), ('call', 't1', 0.1025), ('call', 't2')],
+               'faults': ['drop'], 'timeout': 0.5025, 'tag_jump': [2, 65538]}))
   # the same hops with one preemption allowed: a timer may expire between two ready callbacks (e.g. between a
   # hop's last deadline check and its write)
   pre = []
   for name, params in out:
-    if 'member leaves' in name:
+    if 'member leaves' in name or 'tag above' in name:
       continue
     q = dict(params)
     q['max_preempt'] = 1
